@@ -131,6 +131,18 @@ func collectFacts(parents map[ast.Node]ast.Node, at ast.Node) []condFact {
 				if ifs, ok := s.(*ast.IfStmt); ok && ifs.Else == nil && endsInJump(ifs.Body.List) {
 					add(ifs.Cond, true)
 				}
+				// switch { case c1: ...jump; case c2: ...jump; ... }: behind it, every leading clause that ends in a jump is excluded
+				if sw, ok := s.(*ast.SwitchStmt); ok && sw.Tag == nil && sw.Init == nil {
+					for _, cs := range sw.Body.List {
+						cc := cs.(*ast.CaseClause)
+						if cc.List == nil || !endsInJump(cc.Body) {
+							break
+						}
+						for _, e := range cc.List {
+							add(e, true)
+						}
+					}
+				}
 				// for { ...; if C { break }; ... } with that single exit: C holds after the loop
 				if fs, ok := s.(*ast.ForStmt); ok && fs.Cond == nil {
 					if c := soleBreakCond(fs); c != nil {
@@ -736,28 +748,59 @@ func ruleG3(r *Run) {
 		r.Undec("fold loop", fd.Pos(), "no loop in rebuildHandler")
 		return
 	}
-	// descending from len-1 to 0
+	// descending over every index: the first index used is len-1, the last one 0 (any spelling: i from len-1 down to 0
+	// with list[i], i from len down to 1 with list[i-1], ...)
 	desc := false
-	if as, ok := loop.Init.(*ast.AssignStmt); ok && len(as.Rhs) == 1 {
-		if be, ok := ast.Unparen(as.Rhs[0]).(*ast.BinaryExpr); ok && be.Op == token.SUB {
-			if c, ok := intConst(info, be.Y); ok && c == 1 {
-				n := ast.Unparen(be.X)
-				if o := identObj(info, n); o != nil {
-					if d, ok := defs[o]; ok && d != nil {
-						n = ast.Unparen(d)
-					}
-				}
-				if lc, ok := n.(*ast.CallExpr); ok && IsBuiltin(info, lc, "len") {
-					if isList(lc.Args[0]) {
-						iv := identObj(info, as.Lhs[0])
-						if cb, ok := loop.Cond.(*ast.BinaryExpr); ok && cb.Op == token.GEQ && identObj(info, cb.X) == iv {
-							if z, ok := intConst(info, cb.Y); ok && z == 0 {
-								if inc, ok := loop.Post.(*ast.IncDecStmt); ok && inc.Tok == token.DEC && identObj(info, inc.X) == iv {
-									desc = true
-								}
+	var foldIdx ast.Expr
+	ast.Inspect(loop.Body, func(n ast.Node) bool {
+		if ie, ok := n.(*ast.IndexExpr); ok && isList(ie.X) {
+			foldIdx = ie.Index
+		}
+		return true
+	})
+	if as, ok := loop.Init.(*ast.AssignStmt); ok && len(as.Lhs) == 1 && len(as.Rhs) == 1 && foldIdx != nil {
+		iv := identObj(info, as.Lhs[0])
+		if cb, ok := loop.Cond.(*ast.BinaryExpr); ok && iv != nil && identObj(info, cb.X) == iv && (cb.Op == token.GEQ || cb.Op == token.GTR) {
+			if inc, ok := loop.Post.(*ast.IncDecStmt); ok && inc.Tok == token.DEC && identObj(info, inc.X) == iv {
+				// normalise: len(list) (directly or through a local n := len(list)) -> symbol LEN, the loop variable -> symbol I
+				norm := func(e ast.Expr) lin {
+					var conv func(e ast.Expr) lin
+					conv = func(e ast.Expr) lin {
+						e = ast.Unparen(e)
+						if k, ok := intConst(info, e); ok {
+							return linConst(k)
+						}
+						if o := identObj(info, e); o != nil {
+							if o == iv {
+								return linSym("I")
+							}
+							if d, ok := defs[o]; ok && d != nil {
+								return conv(d)
 							}
 						}
+						if lc, ok := e.(*ast.CallExpr); ok && IsBuiltin(info, lc, "len") && len(lc.Args) == 1 && isList(lc.Args[0]) {
+							return linSym("LEN")
+						}
+						if be, ok := e.(*ast.BinaryExpr); ok {
+							switch be.Op {
+							case token.ADD:
+								return conv(be.X).add(conv(be.Y))
+							case token.SUB:
+								return conv(be.X).sub(conv(be.Y))
+							}
+						}
+						return linSym(types.ExprString(e))
 					}
+					return conv(e)
+				}
+				first := norm(foldIdx).subst(map[string]lin{"I": norm(as.Rhs[0])})
+				lastI := norm(cb.Y)
+				if cb.Op == token.GTR {
+					lastI = lastI.add(linConst(1))
+				}
+				last := norm(foldIdx).subst(map[string]lin{"I": lastI})
+				if first.sub(linSym("LEN")).add(linConst(1)).isZero() && last.isZero() {
+					desc = true
 				}
 			}
 		}
